@@ -99,6 +99,41 @@ theorem loop_guard_bridge (e : Nat) : loop_continues e ≠ 0 ↔ e = 0 := by
 theorem effective_max_depth_bridge (m : Nat) : effective_max_depth m = if m = 0 then DEFAULT_MAX_DEPTH else m := by
   unfold effective_max_depth DEFAULT_MAX_DEPTH; split <;> simp_all
 
+-- ---------------------------------------------------------------- guards of the byte-cursor helpers (byte_buf.c)
+/-- `aws_byte_cursor_right_trim_pred` loops while the view is non-empty and tests its last byte, as `rightTrim` -/
+theorem right_trim_bridge : right_trim_is_loop = true ∧ (∀ n, right_trim_guard n ≠ 0 ↔ 0 < n) ∧
+    (∀ n, 0 < n → n < 2^64 → right_trim_index n = n - 1) := by
+  refine ⟨rfl, fun n => ?_, fun n h1 h2 => ?_⟩
+  · unfold right_trim_guard; split <;> simp_all
+  · unfold right_trim_index; omega
+
+/-- `aws_byte_cursor_left_trim_pred` loops while the view is non-empty and tests its first byte, as `leftTrim` -/
+theorem left_trim_bridge : left_trim_is_loop = true ∧ (∀ n, left_trim_guard n ≠ 0 ↔ 0 < n) := by
+  refine ⟨rfl, fun n => ?_⟩
+  unfold left_trim_guard; split <;> simp_all
+
+/-- `aws_byte_cursor_next_split` stops when the next piece would start behind the end of the input (a piece
+starting exactly at the end is the empty last piece), as `splitLoop` / `splitOnCharN1` -/
+theorem next_split_done_bridge (p e s : Nat) : next_split_done p e s ≠ 0 ↔ (p > e ∨ p < s) := by
+  unfold next_split_done; split <;> simp_all
+
+/-- `aws_byte_cursor_split_on_char_n`: n = 0 means unlimited (and that is what `split_on_char` passes), n = 1 means
+one split; the loop runs while `count ≤ max` and the piece number `max` takes the rest - as `splitOnChar` (no
+limit) and `splitOnCharN1` (second piece = rest) -/
+theorem split_n_bridge : split_on_char_n_arg = 0 ∧ split_max 0 = 2^64 - 1 ∧ (∀ n, 0 < n → split_max n = n) ∧
+    (∀ c m, split_continue c m ≠ 0 ↔ c ≤ m) ∧ (∀ c m, split_is_last c m ≠ 0 ↔ c = m) := by
+  refine ⟨rfl, by decide, fun n h => ?_, fun c m => ?_, fun c m => ?_⟩
+  · unfold split_max; simp [h]
+  · unfold split_continue; split <;> simp_all
+  · unfold split_is_last; split <;> simp_all
+
+/-- `aws_byte_buf_append` is refused exactly when the free space is smaller than the piece, as `bufAppend` -/
+theorem append_refused_bridge (cap len n : Nat) (h1 : len ≤ cap) (h2 : cap < 2^64) :
+    append_refused cap len n ≠ 0 ↔ cap - len < n := by
+  unfold append_refused
+  have : (cap + 18446744073709551616 - len) % 18446744073709551616 = cap - len := by omega
+  rw [this]; split <;> simp_all
+
 theorem limits_as_documented : maxDocumentDepth = DEFAULT_MAX_DEPTH ∧ maxNameLen = MAX_NAME_LEN := by decide
 
 end AwsVerif.Xml
